@@ -85,9 +85,11 @@ UNKNOWN = object()
 
 
 class Evaluator:
-    def __init__(self, ctx, max_depth=6):
+    def __init__(self, ctx, max_depth=8, watch=()):
         self.ctx = ctx
         self.max_depth = max_depth
+        self.watch = set(watch)      # method names of external receivers whose calls are logged as effects
+        self.effects = []
 
     # ------------------------------------------------------------------ driver
     def outcomes(self, func, args, selfenv=None):
@@ -98,11 +100,12 @@ class Evaluator:
             decisions = pending.pop()
             self._decisions = list(decisions)
             self._taken = []
+            self.effects = []
             try:
                 v = self.call(func, dict(args), dict(selfenv or {}), 0)
-                out = ("return", v)
+                out = ("return", v, tuple(self.effects)) if self.watch else ("return", v)
             except Raised as r:
-                out = ("raise", r.exc)
+                out = ("raise", r.exc, tuple(self.effects)) if self.watch else ("raise", r.exc)
             except Fork:
                 n = len(self._taken)
                 pending.append(tuple(self._taken) + (True,))
@@ -225,6 +228,11 @@ class Evaluator:
             base = self.expr(e.value, env, f, depth) if not isinstance(e.value, ast.Name) or e.value.id in env else None
             if isinstance(base, dict) and e.attr in base:
                 return base[e.attr]
+            if isinstance(e.value, ast.Name) and e.value.id not in env:
+                try:
+                    return self.ctx.p.fold(f.module, e)
+                except Unfoldable:
+                    pass
             raise AnalysisError("attribute %s is not bound for the table extractor (%s)" % (k, f.loc(e)))
         if isinstance(e, (ast.List, ast.Tuple)):
             vals = [self.expr(x, env, f, depth) for x in e.elts]
@@ -262,6 +270,14 @@ class Evaluator:
             return res
         if isinstance(e, ast.BinOp):
             return self.binop(e.op, self.expr(e.left, env, f, depth), self.expr(e.right, env, f, depth), e)
+        if isinstance(e, ast.Subscript) and isinstance(e.slice, ast.Slice):
+            base = self.expr(e.value, env, f, depth)
+            lo = self.expr(e.slice.lower, env, f, depth) if e.slice.lower is not None else None
+            hi = self.expr(e.slice.upper, env, f, depth) if e.slice.upper is not None else None
+            if isinstance(base, (str, list, tuple)) and all(x is None or isinstance(x, int) for x in (lo, hi)) \
+                    and e.slice.step is None:
+                return base[lo:hi]
+            raise AnalysisError("slice of an abstract value not supported (%s)" % f.loc(e))
         if isinstance(e, ast.Subscript):
             base = self.expr(e.value, env, f, depth)
             idx = self.expr(e.slice, env, f, depth)
@@ -370,6 +386,13 @@ class Evaluator:
                 return {"int": int, "str": str, "float": float}[fn.id] if not args else Opaque(fn.id)
             if fn.id == "isinstance":
                 return self.decide(e)
+        if isinstance(fn, ast.Attribute):
+            recv_name = fn.value.id if isinstance(fn.value, ast.Name) else None
+            if recv_name in env and isinstance(env[recv_name], dict) and (fn.attr + "()") in env[recv_name]:
+                return env[recv_name][fn.attr + "()"]
+            if fn.attr in self.watch:
+                self.effects.append((fn.attr,) + tuple(freeze(a) for a in args))
+                return None
         cs = self.ctx.r.site_of.get(id(e))
         if cs is not None and cs.targets and cs.kind in ("func", "self", "static", "typed"):
             if len(cs.targets) != 1:
@@ -390,11 +413,25 @@ class Evaluator:
             return self.call(t, bound, selfenv, depth + 1)
         if isinstance(fn, ast.Attribute) and fn.attr in ("format", "join", "upper", "lower", "strip"):
             return Opaque("str")
-        if isinstance(fn, ast.Attribute) and fn.attr == "startswith" and args:
+        if isinstance(fn, ast.Attribute) and fn.attr in ("startswith", "endswith") and args:
             base = self.expr(fn.value, env, f, depth)
             if isinstance(base, str) and isinstance(args[0], str):
-                return base.startswith(args[0])
+                return base.startswith(args[0]) if fn.attr == "startswith" else base.endswith(args[0])
             return self.decide(e)
+        if cs is not None and cs.kind == "ext" and isinstance(fn, ast.Name):
+            if len(args) == 1 and not kws:
+                return (fn.id, freeze(args[0]))
+            return ("call", fn.id, tuple(freeze(a) for a in args), tuple(sorted((k, freeze(v)) for k, v in kws.items())))
         if cs is not None and cs.kind in ("ext", "builtin", "ctor", "ctor_noinit", "byname", "unresolved"):
             return Opaque("call")
         raise AnalysisError("call %s not supported by the table extractor (%s)" % (ast.unparse(e)[:40], f.loc(e)))
+
+
+def freeze(v):
+    if isinstance(v, list):
+        return tuple(freeze(x) for x in v)
+    if isinstance(v, tuple):
+        return tuple(freeze(x) for x in v)
+    if isinstance(v, dict):
+        return tuple(sorted((repr(k), freeze(x)) for k, x in v.items()))
+    return v
